@@ -182,7 +182,9 @@ def run(prog, rep, tier='quick'):
                 if not ok or not isinstance(psd, Num):
                     rep.undecided('mean', cls.qname, ctx, 'no PSD stored', cw)
                     continue
-                red = [e for e in itp.events if e[0] == 'reduce' and e[4] is not None and len(e[4]) == 2 and e[5] == cls.qname + '.__call__']
+                # the averaging may sit in __call__ itself or in a private method of the class it calls
+                own = {cls.qname + '.__call__'} | {q_ for q_ in itp.trace if q_.startswith(cls.qname + '.')}
+                red = [e for e in itp.events if e[0] == 'reduce' and e[4] is not None and len(e[4]) == 2 and e[5] in own]
                 okred = bool(red) and all(e[4][e[3]] == kw['k'].a for e in red)
                 okreal = (psd.cplx is False or psd.rv) and psd.nonneg
                 if okred and okreal:
